@@ -109,7 +109,7 @@ def fxTx (currency : String) (tradeDate : Nat) (tradeStr : String) (amount : Rat
 structure Tracker where
   adjacent : Option FxtRow := none
   txs : List BTx := []
-deriving Repr, Inhabited
+deriving Repr, Inhabited, DecidableEq
 
 /-- the CAD leg and the other leg of two adjacent FXT rows (`adj` came first) -/
 def fxtCad (adj r : FxtRow) : FxtRow := if adj.currency = "CAD" then adj else r
